@@ -613,7 +613,7 @@ func transitionLineBreakState(state int, r rune, b []byte, str string) (newState
 	if rule > 302 {
 		if nextProperty == prEM {
 			if state == lbEB || state == lbExtPicCn {
-				return prAny, LineDontBreak
+				return lbIDEM, LineDontBreak
 			}
 		}
 		graphemeProperty := propertyGraphemes(r)
